@@ -263,6 +263,9 @@ func (c *itemCtx) evalCase(fc *filterCase) (*finding, bufimage.Image, error, *ex
 	return fnd, out, err, ex
 }
 
+// droppedMemberKinds: the kinds of members that droppedMemberOpts distinguishes.
+var droppedMemberKinds = []string{"plain-field", "map-field-message-value", "map-field-enum-value", "oneof", "extension", "method"}
+
 // specificRootCause are signatures that already name one defect precisely; they are never
 // re-attributed to the excluded-RPC-type family.
 var specificRootCause = map[string]bool{
@@ -420,6 +423,13 @@ func (c *itemCtx) evalWith(fc *filterCase, ex *expectation) (*finding, bufimage.
 				return &finding{"minimal/extra/extendee-of-dropped-extension", fmt.Sprintf("message %s (and what it needs: %d elements in all) is in the filtered image only because it is the extendee of an extension that was itself dropped (its type is excluded); nothing that survives needs it, and filtering the result again removes it", n, len(extra))}, out, nil
 			}
 		}
+		for _, kind := range droppedMemberKinds {
+			for _, x := range ex.DroppedMemberOpts[kind] {
+				if contains(extra, x) {
+					return &finding{"minimal/extra/option-of-dropped-member", fmt.Sprintf("%s %s (with what it needs: %d elements in all, first %s) is in the filtered image only because it is the definition / the Any payload of a custom option set on a member (%s) that was itself dropped together with its excluded type; nothing that survives uses it", ri.Names[x], x, len(extra), extra[0], kind)}, out, nil
+				}
+			}
+		}
 		return &finding{"minimal/extra/" + ri.Names[extra[0]].String(), fmt.Sprintf("%s %s is in the filtered image although nothing that was asked for needs it", ri.Names[extra[0]], extra[0])}, out, nil
 	}
 	for _, p := range ri.Order {
@@ -431,6 +441,22 @@ func (c *itemCtx) evalWith(fc *filterCase, ex *expectation) (*finding, bufimage.
 	for sh := range ex.L.AnyShapes {
 		// non-vacuity of the Any clause per type URL shape: the payload was demanded and found
 		st.inc("any_payload_url_" + sh + "_cases")
+	}
+	droppedUnused := false
+	for _, kind := range droppedMemberKinds {
+		// non-vacuity of "a dropped member keeps nothing alive": a member of this kind that carries a
+		// custom option nothing else uses was dropped with its excluded type, and the definition of
+		// the option is (rightly, see the minimal oracle above) not in the result
+		for _, x := range ex.DroppedMemberOpts[kind] {
+			if e := m.El[x]; e != nil && e.Kind == kExt && !ex.Xc[x] && !ex.U.Present[x] {
+				st.inc("dropped_member_option_" + kind + "_cases")
+				droppedUnused = true
+				break
+			}
+		}
+	}
+	if droppedUnused && len(fc.Include) == 0 {
+		st.inc("dropped_member_option_exclude_only_cases")
 	}
 	if !fc.AllowImported {
 		// non-vacuity of "an included package fails as import only if ALL its files are imports":
@@ -999,6 +1025,7 @@ func run(r *evid.Run) {
 	for _, clause := range []string{"clause_links_checked", "clause_closure_checked", "clause_no_excluded_checked", "clause_unchanged_checked", "clause_comments_checked", "clause_no_error_checked", "clause_idempotence_checked", "clause_in_place_compared", "clause_contradictory_filter_rejected", "clause_must_fail", "member_fields_dropped_cases", "oneofs_dropped_cases", "shell_cases", "dependency_lists_rewritten", "locations_moved",
 		"any_payload_url_default_cases", "any_payload_url_single-segment_cases", "any_payload_url_path_cases", "any_payload_url_scheme_cases", "any_payload_url_empty-host_cases",
 		"include_package_all-target_accepted_cases", "include_package_mixed-import-first-and-last_accepted_cases", "include_package_mixed-import-last_accepted_cases", "include_package_all-import_rejected_cases",
+		"dropped_member_option_plain-field_cases", "dropped_member_option_map-field-message-value_cases", "dropped_member_option_map-field-enum-value_cases", "dropped_member_option_oneof_cases", "dropped_member_option_extension_cases", "dropped_member_option_method_cases", "dropped_member_option_exclude_only_cases",
 		"exclude_only_import_generations_2_cases", "exclude_only_import_generations_3_cases", "exclude_only_import_generations_4_cases", "exclude_only_import_generations_5_cases", "exclude_only_import_generations_6_cases"} {
 		if total[clause] == 0 && !r.Expired() {
 			r.Incomplete("clause never exercised: " + clause)
